@@ -35,9 +35,11 @@
 **
 ** Parameters: mode=bfs|ladder (ladder: print_to of one N-character conversion, N = 0..ladder_n
 **             and larger sizes, read back with sread and scan_from; then the byte sweep: all 256
-**             byte values written and read one byte at a time on file / tmpfile / fmemopen / pipe)
+**             byte values written and read one byte at a time on file / tmpfile / fmemopen / pipe; then the
+**             write-size ladder: one swrite of n bytes, n around 4096 / BUFSIZ / 65536)
 **             depth=N  first=<ops> | notfirst=<ops> (partition of the history space by
 ** the first operation; comma separated alphabet indices)  alpha=full|lite  whitebox=1|0
+**             big=<n>|bufsiz (size of the large swrite/sread block of the BFS, default 8193)
 **             bigprint=1|0 (0: without the 257-character print_to operation)
 **             probe=1|0 (seof/stell compared with the twin after every transition)
 **             concrete=1|0 (state key refined by the real stream's libc bookkeeping when it
@@ -219,9 +221,10 @@ static FILE* T;                  /* the twin stream */
 #define GUARD 32
 static unsigned char chunk3[BIG];
 static const unsigned char* chunkp[4];
-static const size_t chunklen[4] = { 0, 1, 3, BIG };
-static const char* chunkname[4] = { "\"\"", "\"\\xff\"", "\"\\0y\\0\"", "8193-byte block" };
-static const size_t rdlen[4] = { 0, 1, 3, BIG };
+static size_t chunklen[4] = { 0, 1, 3, BIG };      /* [3] = big=<n>|bufsiz, at most BIG */
+static char bigname[32] = "8193-byte block";
+static const char* chunkname[4] = { "\"\"", "\"\\xff\"", "\"\\0y\\0\"", bigname };
+static size_t rdlen[4] = { 0, 1, 3, BIG };
 static const int origins[3] = { SEEK_SET, SEEK_CUR, SEEK_END };
 static const char* originname[3] = { "SEEK_SET", "SEEK_CUR", "SEEK_END" };
 static const int offsets[3] = { 0, 1, -1 };
@@ -257,7 +260,7 @@ static int nt_flag;
 static unsigned char firstmask[MAXOPS]; static int have_first;
 
 /* evidence counters */
-static uint64_t n_readback_bytes, n_closed_ops, n_disk_compares, n_scan_ok, n_with_exit, n_cfail, n_fclose_seen, n_fopen_seen, n_env, n_diverged, n_probes, n_destruct, n_ladder, n_sweep;
+static uint64_t n_readback_bytes, n_closed_ops, n_disk_compares, n_scan_ok, n_with_exit, n_cfail, n_fclose_seen, n_fopen_seen, n_env, n_diverged, n_probes, n_destruct, n_ladder, n_sweep, n_wladder;
 
 static struct { int fclose, fopen, silent; } E;   /* expectations for the operation in progress */
 static char site[96];
@@ -1125,13 +1128,13 @@ static int sweep_flags(var f, FILE* t, int seekable, const char* when, int byte)
   pr_eof = -1;
   SSTEP("seof", pr_eof = seof(f) ? 1 : 0);
   vf.evaluations++;
-  if (pr_eof != (feof(t) ? 1 : 0)) return SV("seof-differs-after-byte-0x%02x", byte, "seof = %d %s, feof on the twin = %d", (int)pr_eof, when, feof(t) ? 1 : 0);
+  if (pr_eof != (feof(t) ? 1 : 0)) return SV(byte >= 0 ? "seof-differs-after-byte-0x%02x" : "seof-differs", byte, "seof = %d %s, feof on the twin = %d", (int)pr_eof, when, feof(t) ? 1 : 0);
   if (seekable) {
     g_ret = -777;
     SSTEP("stell", g_ret = stell(f));
     long tt = ftell(t);
     vf.evaluations++;
-    if (g_ret != tt) return SV("stell-differs-after-byte-0x%02x", byte, "stell = %" PRId64 " %s, ftell on the twin = %ld", (int64_t)g_ret, when, tt);
+    if (g_ret != tt) return SV(byte >= 0 ? "stell-differs-after-byte-0x%02x" : "stell-differs", byte, "stell = %" PRId64 " %s, ftell on the twin = %ld", (int64_t)g_ret, when, tt);
   }
   return 0;
 }
@@ -1294,6 +1297,184 @@ static void sweep(void) {
   vf_cur_valid = 0;
 }
 
+/* ---- write-size ladder: ONE swrite of n bytes, n around the buffer sizes, every backend ---- */
+
+/*
+** For n in {1, 2, 255, 256, 512, 1024, 4095, 4096, 4097, 8192, BUFSIZ-1, BUFSIZ, BUFSIZ+1, 2*BUFSIZ-1,
+** 2*BUFSIZ, 2*BUFSIZ+1, 3*BUFSIZ, 65536, 65537}, alone and after a 1-byte write (unaligned stream
+** position): one swrite(f, pattern, n); result, stell and seof against the twin; sflush; size and
+** content on disk (file backends); read back with one sread(n), one more read at the end, then
+** with sread(m) for every ladder size m <= n from the start of the block; sclose; disk again.
+*/
+#define WLMAX 65537
+static unsigned char wl_pat[WLMAX], wl_r[WLMAX + 1 + GUARD], wl_t[WLMAX + 1 + GUARD];
+static char wl_mem[2][WLMAX + 4096];
+static size_t wl_sizes[32]; static int wl_nsizes;
+
+static void wl_init(void) {
+  size_t raw[] = { 1, 2, 255, 256, 512, 1024, 4095, 4096, 4097, 8192, BUFSIZ - 1, BUFSIZ, BUFSIZ + 1, 2 * BUFSIZ - 1, 2 * BUFSIZ, 2 * BUFSIZ + 1, 3 * BUFSIZ, 65536, 65537 };
+  for (size_t i = 0; i < sizeof raw / sizeof raw[0]; i++) {
+    if (raw[i] > WLMAX) continue;
+    int j = wl_nsizes;                            /* insertion sort, no duplicates */
+    for (int k = 0; k < wl_nsizes; k++) if (wl_sizes[k] == raw[i]) j = -1;
+    if (j < 0) continue;
+    while (j > 0 && wl_sizes[j - 1] > raw[i]) { wl_sizes[j] = wl_sizes[j - 1]; j--; }
+    wl_sizes[j] = raw[i]; wl_nsizes++;
+  }
+  for (size_t i = 0; i < WLMAX; i++) wl_pat[i] = (unsigned char)(((i % 509) * 131 + 3) & 0xFF);
+}
+
+static const char* sizeclass(size_t n) {
+  return n % BUFSIZ == 0 ? "n=k*BUFSIZ" : n % 4096 == 0 ? "n=k*4096" : n % BUFSIZ == 1 ? "n=k*BUFSIZ+1" : n % BUFSIZ == BUFSIZ - 1 ? "n=k*BUFSIZ-1" : n < 4096 ? "n<4096" : "n-other";
+}
+
+static var wl_wrap(FILE* fp) {                     /* what $(File, fp) does, on the heap */
+  var f = new_raw(File);
+  ((struct File*)f)->file = fp;
+  live[nlive++] = fp;
+  return f;
+}
+
+#define WSTEP(what, stmt) do { ledger_reset(); e = LIB(stmt); if (L.null_arg || L.stale) { ledger_fault(); bad = 1; goto out; } \
+    if (e != NULL) { bad = SV("raised", -1, "%s raised %s (n=%zu%s)", what, vf_exc_name(e), n, pre ? ", after a 1-byte write" : ""); goto out; } } while (0)
+#define WFLAGS(when) do { if (sweep_flags(f, t, seekable, when, -1)) { bad = 1; goto out; } } while (0)
+
+static int wl_disk(size_t n, int pre, const char* when) {
+  size_t rn; int rex; unsigned char* rb = slurp(rpath[0], &rn, &rex);
+  int bad = 0;
+  n_disk_compares++; vf.evaluations++;
+  if (!rex || rn != n + pre) bad = SV("disk-length-differs", -1, "%s the file is %zu bytes long, %zu were written (one swrite of %zu%s)", when, rn, n + pre, n, pre ? " after a 1-byte write" : "");
+  else if ((pre && rb[0] != 'Z') || memcmp(rb + pre, wl_pat, n) != 0) bad = SV("disk-bytes-differ", -1, "%s the file does not hold the bytes written (one swrite of %zu)", when, n);
+  free(rb);
+  return bad;
+}
+
+static int wl_case(int backend, size_t n, int pre) {
+  var e; int bad = 0;
+  var f = NULL, fr = NULL;           /* fr: read end (pipe) */
+  FILE* t = NULL, *tr_ = NULL;
+  int seekable = backend != B_PIPE;
+  int isfile = backend == B_FILE || backend == B_REOPEN;
+  snprintf(sweep_base, sizeof sweep_base, "file/write-ladder/%s/%s%s", backendname[backend], sizeclass(n), pre ? "/unaligned" : "");
+  snprintf(site, sizeof site, "%s", sweep_base); vf.phase = site;
+  unlink(rpath[0]); unlink(tpath[0]);
+  nlive = 0; ledger_reset(); model_close();
+
+  if (isfile) {
+    f = new_raw(File);
+    WSTEP("sopen", sopen(f, $S(rpath[0]), $S("w+b")));
+    t = fopen(tpath[0], "w+b");
+  } else if (backend == B_TMPFILE) { f = wl_wrap(tmpfile()); t = tmpfile(); }
+  else if (backend == B_FMEMOPEN) { f = wl_wrap(fmemopen(wl_mem[0], sizeof wl_mem[0], "w+b")); t = fmemopen(wl_mem[1], sizeof wl_mem[1], "w+b"); }
+  else {
+    int pr[2], pt[2];
+    if (pipe(pr) != 0 || pipe(pt) != 0) { perror("h_file: pipe"); rm_scratch(); _exit(2); }
+    f = wl_wrap(fdopen(pr[1], "wb")); fr = wl_wrap(fdopen(pr[0], "rb"));
+    t = fdopen(pt[1], "wb"); tr_ = fdopen(pt[0], "rb");
+  }
+  if (!t || (f && !((struct File*)f)->file)) { perror("h_file: write ladder backend"); rm_scratch(); _exit(2); }
+
+  if (pre) {
+    g_ret = -777;
+    WSTEP("swrite(1)", g_ret = (int64_t)swrite(f, "Z", 1));
+    if (fwrite("Z", 1, 1, t) != 1) infra("write ladder: fwrite twin");
+    if (g_ret != 1) { bad = SV("swrite-1/return-count", -1, "swrite of 1 byte returned %" PRId64, (int64_t)g_ret); goto out; }
+  }
+  g_ret = -777;
+  WSTEP("swrite(n)", g_ret = (int64_t)swrite(f, wl_pat, n));
+  if (fwrite(wl_pat, n, 1, t) != 1) infra("write ladder: fwrite twin n=%zu", n);
+  vf.evaluations++;
+  if (g_ret != 1 && g_ret != (int64_t)n) { bad = SV("swrite/return-count", -1, "one swrite of %zu bytes returned %" PRId64, n, (int64_t)g_ret); goto out; }
+  WFLAGS("after the swrite");
+  WSTEP("sflush", sflush(f));
+  if (fflush(t) != 0) infra("write ladder: fflush twin");
+  WFLAGS("after sflush");
+  if (isfile && (bad = wl_disk(n, pre, "after sflush"))) goto out;
+
+  /* switch to reading */
+  if (backend == B_REOPEN) {
+    WSTEP("sclose", sclose(f)); fclose(t);
+    WSTEP("sopen rb", sopen(f, $S(rpath[0]), $S("rb"))); t = fopen(tpath[0], "rb");
+  } else if (backend == B_PIPE) {
+    WSTEP("sclose of the write end", sclose(f)); fclose(t);
+    in_lib = 1; e = VF_CATCH(del_raw(f)); in_lib = 0;
+    f = fr; fr = NULL; t = tr_; tr_ = NULL;
+  } else {
+    WSTEP("sseek", sseek(f, 0, SEEK_SET));
+    if (fseek(t, 0, SEEK_SET) != 0) infra("write ladder: fseek twin");
+  }
+  if (pre) {
+    unsigned char c = 0, tc = 0; g_ret = -777;
+    WSTEP("sread(1)", g_ret = (int64_t)sread(f, &c, 1));
+    if (fread(&tc, 1, 1, t) != 1 || tc != 'Z') infra("write ladder: twin first byte");
+    if (g_ret != 1 || c != 'Z') { bad = SV("sread-1/first-byte", -1, "the byte written before the block reads back as 0x%02x (result %" PRId64 ")", c, (int64_t)g_ret); goto out; }
+  }
+  { memset(wl_r, 0xAA, n + GUARD); g_ret = -777;
+    WSTEP("sread(n)", g_ret = (int64_t)sread(f, wl_r, n));
+    size_t tr = fread(wl_t, n, 1, t);
+    if (tr != 1 || memcmp(wl_t, wl_pat, n) != 0) infra("write ladder: twin read-back n=%zu", n);
+    vf.evaluations++;
+    if (g_ret != 1 && g_ret != (int64_t)n) { bad = SV("sread-n/return-count", -1, "one sread of the %zu bytes written by one swrite returned %" PRId64 ", fread on the twin returns 1", n, (int64_t)g_ret); goto out; }
+    if (memcmp(wl_r, wl_pat, n) != 0) { size_t i = 0; while (wl_r[i] == wl_pat[i]) i++;
+      bad = SV("sread-n/bytes-differ", -1, "one sread of %zu bytes: byte %zu reads back as 0x%02x, 0x%02x was written", n, i, wl_r[i], wl_pat[i]); goto out; }
+    for (size_t k = n; k < n + GUARD; k++) if (wl_r[k] != 0xAA) { bad = SV("sread-n/buffer-overrun", -1, "sread(%zu) wrote past the buffer", n); goto out; }
+    n_readback_bytes += n;
+    WFLAGS("after reading the block back"); }
+  { unsigned char c = 0xAA, tc; g_ret = -777;     /* nothing may follow */
+    WSTEP("sread(1) at the end", g_ret = (int64_t)sread(f, &c, 1));
+    size_t tr = fread(&tc, 1, 1, t);
+    if (tr != 0) infra("write ladder: twin has data after the block");
+    vf.evaluations++;
+    if (g_ret != 0) { bad = SV("sread-1-at-end/return-count", -1, "sread(1) after the block returned %" PRId64 ", the twin is at end-of-file", (int64_t)g_ret); goto out; }
+    WFLAGS("after the read at end-of-file"); }
+  if (seekable) for (int k = 0; k < wl_nsizes && wl_sizes[k] <= n; k++) {   /* the mirrored ladder of read sizes */
+    size_t m = wl_sizes[k];
+    WSTEP("sseek", sseek(f, pre, SEEK_SET));
+    if (fseek(t, pre, SEEK_SET) != 0) infra("write ladder: fseek twin");
+    memset(wl_r, 0xAA, m + GUARD); g_ret = -777;
+    WSTEP("sread(m)", g_ret = (int64_t)sread(f, wl_r, m));
+    if (fread(wl_t, m, 1, t) != 1 || memcmp(wl_t, wl_pat, m) != 0) infra("write ladder: twin sread(%zu) of %zu", m, n);
+    vf.evaluations++;
+    if (g_ret != 1 && g_ret != (int64_t)m) { bad = SV("sread-m/return-count", -1, "sread(%zu) at the start of a %zu-byte block returned %" PRId64, m, n, (int64_t)g_ret); goto out; }
+    if (memcmp(wl_r, wl_pat, m) != 0) { bad = SV("sread-m/bytes-differ", -1, "sread(%zu) at the start of a %zu-byte block did not return the bytes written", m, n); goto out; }
+    n_readback_bytes += m;
+    WFLAGS("after sread(m)");
+  }
+  WSTEP("sclose", sclose(f)); fclose(t); t = NULL;
+  if (isfile && (bad = wl_disk(n, pre, "after sclose"))) goto out;
+out:
+  if (t) fclose(t);
+  if (tr_) fclose(tr_);
+  if (f) { in_lib = 1; e = VF_CATCH(del_raw(f)); in_lib = 0; }
+  if (fr) { in_lib = 1; e = VF_CATCH(del_raw(fr)); in_lib = 0; }
+  if (!bad && nlive != 0) bad = SV("handle-leak", -1, "%d stream(s) still open after sclose", nlive);
+  while (nlive > 0) __real_fclose(live[--nlive]);
+  return bad;
+}
+#undef WSTEP
+#undef WFLAGS
+
+static void write_ladder(void) {
+  int rb = -1, rp = -1; size_t rn = 0;
+  int only = vf.replay && sscanf(vf.replay, "wladder backend=%d n=%zu pre=%d", &rb, &rn, &rp) == 3;
+  if (vf.replay && !only) return;
+  wl_init();
+  for (int b = 0; b < NBACKENDS; b++) for (int k = 0; k < wl_nsizes; k++) for (int pre = 0; pre < 2; pre++) {
+    size_t n = wl_sizes[k];
+    if (b == B_PIPE && n + pre > 32768) continue;        /* stays below the pipe capacity: writer and reader are one thread */
+    if (only && (b != rb || n != rn || pre != rp)) continue;
+    vf_watchdog(60);
+    vf_set_cur("wladder backend=%d n=%zu pre=%d | %s: %sone swrite of %zu bytes (BUFSIZ=%d); stell, sflush, disk, sread(%zu), end-of-file, sread ladder",
+               b, n, pre, backendname[b], pre ? "1-byte write, then " : "", n, (int)BUFSIZ, n);
+    int bad = wl_case(b, n, pre);
+    vf.executions++; vf.transitions++; n_wladder++;
+    if (!bad) { vf.states++; vf.nontrivial++; }
+    if (vf_want_sample()) vf_sample("%s", vf_cur);
+  }
+  vf_watchdog(0);
+  vf_cur_valid = 0;
+}
+
 static void ladder(void) {
   static const size_t big[] = { 511, 512, 513, 1023, 1024, 1025, 4095, 4096, 4097, 5000, 8191, 8192, 8193, 20000 };
   size_t maxsmall = (size_t)vf_param_i("ladder_n", 300);
@@ -1329,6 +1510,10 @@ int main(int argc, char** argv) {
   chunkp[0] = (const unsigned char*)""; chunkp[1] = (const unsigned char*)"\xff";
   chunkp[2] = (const unsigned char*)"\0y\0"; chunkp[3] = chunk3;
 
+  { const char* bg = vf_param("big", "8193");
+    size_t b = strcmp(bg, "bufsiz") == 0 ? (size_t)BUFSIZ : (size_t)strtoul(bg, NULL, 0);
+    if (b < 4 || b > BIG) b = BIG;
+    chunklen[3] = rdlen[3] = b; snprintf(bigname, sizeof bigname, "%zu-byte block", b); }
   build_alphabet(vf_param_is("alpha", "lite", "full"));
   if (vf_param_i("listops", 0)) { for (int i = 0; i < nops; i++) printf("%d %s\n", i, ops[i].name); return 0; }
   const char* fs = vf_param("first", NULL), *nfs = vf_param("notfirst", NULL);
@@ -1349,6 +1534,8 @@ int main(int argc, char** argv) {
   if (vf_param_is("mode", "ladder", "bfs")) {
     ladder();
     sweep();
+    write_ladder();
+    vf_extra("write_ladder_cases", "%" PRIu64, n_wladder);
     vf_extra("byte_sweep_cases", "%" PRIu64, n_sweep);
     vf_extra("ladder_cases", "%" PRIu64, n_ladder);
     vf_extra("readback_bytes_compared", "%" PRIu64, n_readback_bytes);
